@@ -127,6 +127,10 @@ V = [
      "        self.range_type = range_type\n", "C03-R6"),
     ("C03", B, "fit without hash test", IND,
      '        if "hash" in self.fit_properties:', '        if False:', "C03-R4"),
+    ("C03", B, "range stored in sorted order after the change test", FIT,
+     '            value = copy.deepcopy(value)\n        super(FitProperties, self).__setitem__(key, value)\n',
+     '            value = copy.deepcopy(value)\n            if key == "range_x":\n                value = sorted(value)\n        super(FitProperties, self).__setitem__(key, value)\n',
+     "C03-R13"),
     ("C03", N, "swap hash branches", IND,
      """        if "hash" in self.fit_properties:
             # There is nothing to do, because the initial fit
@@ -181,6 +185,12 @@ V = [
      "np.linspace(xmin, xmin*.05, num_samp)", "np.linspace(xmin, xmin*.05, num_samp + 1)", "C05-R4"),
     ("C05", B, "xmax not converted", FIT, '"xmax": x.max() / self.fp["gcf_k"],',
      '"xmax": x.max(),', "C05-R2b"),
+    ("C05", B, "working range sorted at construction", FIT,
+     '        self.range_x = list(self.fp["range_x"])\n',
+     '        self.range_x = sorted(self.fp["range_x"])\n', "C05-R9"),
+    ("C05", N, "working range copied with copy.copy", FIT,
+     '        self.range_x = list(self.fp["range_x"])\n',
+     '        self.range_x = list(copy.copy(self.fp["range_x"]))\n', ""),
     ("C05", N, "and-form mask", FIT,
      "                range_bool[x_data < rmin] = False\n                range_bool[x_data > rmax] = False\n",
      "                range_bool &= (x_data >= rmin) & (x_data <= rmax)\n", ""),
@@ -267,6 +277,20 @@ V = [
     ("C09", B, "unguarded success", FEA,
      'return self.dataset.fit_properties.get("success", False)',
      'return self.dataset.fit_properties["success"]', "C09-R1"),
+    ("C09", B, "length assertion on the approach data", FEA,
+     '        y = self.dataset[yaxis][seg].copy()\n        return y\n',
+     '        y = self.dataset[yaxis][seg].copy()\n        assert y.size > 10, "approach part too short"\n        return y\n',
+     "C09-R7"),
+    ("C09", B, "contact point read under another predicate", FEA,
+     '        Sudden spikes in indentation curve\n        """\n        if self.has_contact_point:\n',
+     '        Sudden spikes in indentation curve\n        """\n        if self.is_valid:\n', "C09-R7"),
+    ("C09", N, "contact point accessor as guard clause", FEA,
+     '        if self.has_contact_point:\n            pint = self.dataset.fit_properties["params_fitted"]\n            return pint["contact_point"].value\n        else:\n            raise ValueError("No contact point in data!")\n',
+     '        if not self.has_contact_point:\n            raise ValueError("No contact point in data!")\n        pint = self.dataset.fit_properties["params_fitted"]\n        return pint["contact_point"].value\n', ""),
+    ("C09", B, "second unguarded combination of a selection", RAT,
+     '        response = np.loadtxt(resp_path, dtype=float)\n',
+     '        response = np.loadtxt(resp_path, dtype=float)\n        _widths = np.hstack([np.loadtxt(sp, dtype=float, ndmin=2).shape[1] for sp in sample_paths])\n',
+     "C09-R8"),
     ("C09", N, "in-test instead of get", FEA,
      'return self.dataset.fit_properties.get("success", False)',
      'return ("success" in self.dataset.fit_properties\n'
@@ -363,8 +387,20 @@ V = [
     ("C16", B, "default tolerance", RIO, "                               atol=0, equal_nan=True):",
      "                               equal_nan=True):", "C16-R3"),
     ("C16", B, "range_x via json on one side", RIO,
-     '                elif key == "range_x":\n                    val = str(val)\n',
-     '                elif key == "range_x":\n                    val = json.dumps(val)\n', "C16-R1"),
+     '                    val = str(tuple(float(v) for v in val))\n',
+     '                    val = json.dumps(val)\n', "C16-R1"),
+    ("C16", B, "range_x text of the caller's numbers (F34)", RIO,
+     '                    val = str(tuple(float(v) for v in val))\n',
+     '                    val = str(val)\n', "C16-R8"),
+    ("C16", N, "range_x formatted from converted numbers", RIO,
+     '                    val = str(tuple(float(v) for v in val))\n',
+     '                    val = "({!r}, {!r})".format(float(val[0]), float(val[1]))\n', ""),
+    ("C16", B, "range_x formatted from the caller's numbers", RIO,
+     '                    val = str(tuple(float(v) for v in val))\n',
+     '                    val = "({!r}, {!r})".format(val[0], val[1])\n', "C16-R8"),
+    ("C16", N, "range_x converted element by element", RIO,
+     '                    val = str(tuple(float(v) for v in val))\n',
+     '                    val = str([float(val[0]), float(val[1])])\n', ""),
     ("C16", B, "raw data without path not skipped", RIO,
      '                if "path" not in dset.attrs:\n', '                if False:\n',
      "C16-R4"),
